@@ -13,6 +13,7 @@ import (
 	"os"
 	"path/filepath"
 	"reflect"
+	"runtime"
 	"sort"
 	"strings"
 	"syscall"
@@ -234,7 +235,39 @@ func Trimpath(on bool) {
 	}
 }
 func Shared(p any)          {}
-func FrameFile(name string) { out.Inapplicable = "synthetic call-stack frames are not reproduced natively" }
+func FrameFile(name string) {
+	if !strings.HasSuffix(name, "_test.go") {
+		out.Inapplicable = "synthetic helper frames are not reproduced natively"
+	}
+}
+
+// TestFileBase is the base name (without .go) of the test file the harness runs under.
+func TestFileBase() string {
+	for i := 1; i < 40; i++ {
+		_, file, _, ok := runtime.Caller(i)
+		if !ok {
+			break
+		}
+		if strings.HasSuffix(file, "_test.go") {
+			return strings.TrimSuffix(filepath.Base(file), ".go")
+		}
+	}
+	return ""
+}
+
+// TestFileDir is the directory of the test file the harness runs under.
+func TestFileDir() string {
+	for i := 1; i < 40; i++ {
+		_, file, _, ok := runtime.Caller(i)
+		if !ok {
+			break
+		}
+		if strings.HasSuffix(file, "_test.go") {
+			return filepath.Dir(file)
+		}
+	}
+	return ""
+}
 func Symbolic() bool        { return false }
 func Yield()                {}
 func Preemptions() int      { return 0 }
